@@ -9,6 +9,7 @@ from fractions import Fraction
 import numpy as np
 
 from .common import Spec, Driver
+from . import c04_layout as LY
 
 FRAME_CHOICES_QUICK = [0, 1, 7, 100, 300]
 FRAME_CHOICES_LONG = [8191, 8192, 8193, 12345]
@@ -164,6 +165,45 @@ def speakers_variant(rng, lay):
     return text, sp, k + ("" if screen_kind == "default" else ":" + screen_kind), screen_kind
 
 
+DIRECTED_GAINS = {"gain0": 0.0, "gain0-int": 0, "neg": -1.0, "big": 2.0, "half": 0.5}
+
+
+def choose_speakers(rng, lay, directed=None, pt=None, legacy=False):
+    """Speakers file for one file-to-file run.
+    -> (yaml text | None, speakers [(channel, names, gain)] | None, label, reference Layout, intent | None).
+    `directed`: a deterministic file in which the loudspeaker that carries the signal (`pt`) has the gain
+    DIRECTED_GAINS[directed] (exactly 0, negative, > 1), all other entries unity; output channels reversed."""
+    import yaml
+    if directed is not None:
+        names = list(lay.channel_names)
+        n = len(names)
+        entries = []
+        for i, name in enumerate(names):
+            e = dict(channel=n - 1 - i, names=[name], gain=None, pos=None, form="str")
+            if name == pt:
+                e["gain"] = DIRECTED_GAINS[directed]
+            elif i % 2:
+                e["gain"] = 1.0
+            entries.append(e)
+        screen = "null" if directed == "gain0" else "absent"
+        obj = {"speakers": [dict([("channel", e["channel"]), ("names", e["names"][0])] +
+                                 ([("gain_linear", e["gain"])] if e["gain"] is not None else [])) for e in entries]}
+        if screen == "null":
+            obj["screen"] = None
+        intent = dict(speakers=entries, screen=screen, kind="directed-" + directed)
+        text = yaml.safe_dump(obj, sort_keys=False)
+    elif legacy:
+        text, speakers, sk, screen_kind = speakers_variant(rng, lay)
+        return text, speakers, sk, reference_layout(lay, screen_kind), screen_kind
+    else:
+        obj, intent = LY.gen_valid(rng, lay, render_safe=True)
+        text = LY.dump_yaml(rng, obj)
+    ref = LY.reference_output_layout(lay, intent)
+    speakers = None if intent["speakers"] is None else [
+        (e["channel"], list(e["names"]), 1.0 if e["gain"] is None else float(e["gain"])) for e in intent["speakers"]]
+    return text, speakers, "g:" + intent["kind"], LY.build_reference_layout(lay, ref), intent
+
+
 def write_input(path, adm, n_tracks, frames, bitdepth, rate, rng, full_scale=False):
     import lxml.etree
     from ear.fileio import openBw64
@@ -223,6 +263,11 @@ def in_memory(in_path, lay_real, programme_id, comp_ids, conversion, fix):
         return out, f.sampleRate, f.bitdepth, x.shape[0]
 
 
+def OfflineBlocksize():
+    from ear.cmdline.render_file import OfflineRenderDriver
+    return OfflineRenderDriver.blocksize
+
+
 def frac(x):
     fr = Fraction(float(x))
     return "%d/%d" % (fr.numerator, fr.denominator)
@@ -234,24 +279,49 @@ class C04(Spec):
     props_module = "Earverif.Props.C04Compose"
     theorems = tuple("Earverif.FileRender." + t for t in (
         "run_frame_count", "run_channel_count", "upmix_column", "dot_single", "overload_iff", "run_failed_iff",
-        "quantise_within_step", "quantise_clips", "file_frames_eq_input"))
+        "quantise_within_step", "quantise_clips", "run_blocking_invariant", "file_frames_eq_input",
+        "file_render_blocks_frames")) + tuple("Earverif.FileRenderLayout." + t for t in (
+        "speakers_file_channels", "speakers_file_routing", "speakers_file_column_nnz", "upmix_check_iff",
+        "speakers_file_check_clean_iff", "parse_speaker_spec", "parse_polar_spec", "screen_null_vs_absent",
+        "screen_list_form", "with_real_layout_screen", "load_output_layout_screen", "inside_angle_range_iff",
+        "check_position_iff", "with_speakers_eq_upmix", "eye_identity", "load_output_layout_spec",
+        "programme_lookup_total", "lookupAll_ok", "get_rendering_items_spec", "get_rendering_items_lookup_error",
+        "apply_conversion_spec", "fileParts_spec", "renderCalls_length"))
     trusted_base = (
-        "model Earverif/Model/FileRender.lean: hand transliteration of OfflineRenderDriver.load_output_layout / "
-        "render_input_file / run glue, Layout.with_speakers, PeakMonitor and the truncating quantiser over exact "
-        "rationals; the renderer's output blocks are a parameter of the model (C02/C03), float rounding of "
+        "model Earverif/Model/FileRender.lean: hand transliteration of OfflineRenderDriver.render_input_file / run glue, "
+        "Layout.with_speakers routing, PeakMonitor and the truncating quantiser over exact rationals; float rounding of "
         "x*gain and x*M is C16's subject",
-        "argparse, YAML parsing and the filesystem are exercised by the harness but not modelled",
+        "model Earverif/Model/FileRenderLayout.lean: hand transliteration of layout.load_real_layout / load_speakers on a "
+        "PARSED YAML value, Layout.with_speakers / with_real_layout, check_positions (geom.inside_angle_range), "
+        "check_upmix_matrix, OfflineRenderDriver.load_output_layout, lookup_adm_element / get_rendering_items and the "
+        "block loop (iter_sample_blocks per C18's specIter, then get_tail); tied to the code by the `@` ops of the C04 driver",
+        "PyYAML (text -> value), argparse and the filesystem are exercised by the harness but not modelled; "
+        "select_rendering_items / preprocess_rendering_items / convert_objects_* are parameters of the glue model (C06/C07/C19)",
     )
     assumptions = (
         "the in-memory rendering used as reference is the library's own Renderer fed one block + tail (equal to any "
         "other blocking up to rounding: C02); codes are compared within +-1 because the model is exact and the code uses floats",
         "overload comparison is skipped when the exact peak is within 1e-9 of 1 unless the case was constructed to be exact",
+        "speakers-file model: YAML values restricted to null/bool/int/finite float/str/list/dict; integers within the "
+        "int64/float range; ADM ids ASCII (str.upper); the model answers `unsupported` (no claim, not compared) for a string "
+        "where a number is expected (Python's float()/numpy accept numeric strings), for bool/float channel numbers and for "
+        "`gain_linear: null` (numpy stores NaN)",
+        "generated real positions and angles are multiples of 1/4 degree, so the +-360.0 float arithmetic of "
+        "inside_angle_range is exact",
     )
     rule = ("generated BW64/ADM input files (items DirectSpeakers/Objects/HOA, 1-2 programmes, complementary group, "
             "rounded durations) x layout x speakers file variant x output gain x options; a case is one file-to-file run; "
-            "non-trivial = non-empty audio and at least one non-zero output sample; distinct by all parameters")
+            "non-trivial = non-empty audio and at least one non-zero output sample; distinct by all parameters. "
+            "Speakers files: a grammar of valid files (permutations, shared output channels via one entry or equal channel "
+            "numbers, first-entry-wins, gains 0 / negative / > 1 / integer, names as string or list, real positions on and "
+            "around the range boundaries, screen absent / null / polar / cart, list or dict form, unknown keys) plus a "
+            "deterministic directed set and a malformed stream (every key missing / null / of each wrong type, out-of-range "
+            "and extra position keys, negative and non-integer channels, malformed screens, non-mapping documents); a case "
+            "is one document x layout through load_real_layout, load_speakers, with_real_layout + check_* and "
+            "load_output_layout; lookups: generated element lists x ids (case variants, unknown, wrong type) x conversion mode")
 
-    def _one(self, ctx, tmp, idx, driver_lines, metas, long_frames=False, exact_overload=None, screen_probe=None):
+    def _one(self, ctx, tmp, idx, driver_lines, metas, long_frames=False, exact_overload=None, screen_probe=None,
+             directed=None):
         from ear.core import bs2051, layout as layout_mod
         from ear.cmdline.render_file import OfflineRenderDriver
         from ear.fileio import openBw64
@@ -260,7 +330,7 @@ class C04(Spec):
         lname = rng.choice(bs2051.layout_names)
         lay = bs2051.get_layout(lname)
         # exact overload probes: one DirectSpeakers channel passed through to the like-named loudspeaker
-        pt = rng.choice([n for n in lay.channel_names if not n.startswith("LFE")]) if exact_overload else None
+        pt = rng.choice([n for n in lay.channel_names if not n.startswith("LFE")]) if (exact_overload or directed) else None
         adm, n_tracks, prog1, prog2, comp, info = make_adm(rng, None, lay.channel_names, passthrough=pt,
                                                            special="edgelock" if screen_probe else None)
         bitdepth = rng.choice([16, 24, 32])
@@ -268,10 +338,13 @@ class C04(Spec):
         frames = rng.choice(FRAME_CHOICES_LONG if long_frames else FRAME_CHOICES_QUICK)
         if long_frames and long_frames is not True:
             frames = long_frames
-        yaml_text, speakers, sk, screen_kind = speakers_variant(rng, lay)
+        # speakers file: the older hand-written variants (needed by the overload and screen probes, which rewrite
+        # them) or, half of the time and for the directed gain probes, a file from the grammar of c04_layout
+        legacy = bool(exact_overload or screen_probe) or (directed is None and rng.random() < 0.5)
+        yaml_text, speakers, sk, lay_real, screen_kind = choose_speakers(rng, lay, directed=directed, pt=pt, legacy=legacy)
         if screen_probe:  # a speakers file whose screen entry is `screen_probe`, with and without a speakers list
             while screen_kind != screen_probe:
-                yaml_text, speakers, sk, screen_kind = speakers_variant(rng, lay)
+                yaml_text, speakers, sk, lay_real, screen_kind = choose_speakers(rng, lay, legacy=True)
         gain_db = rng.choice([0.0, 0.0, -6.0, 3.0, round(rng.uniform(-12, 6), 2)])
         fail = rng.random() < 0.5
         conversion = rng.choice([None, None, "to_cartesian", "to_polar"])
@@ -296,12 +369,15 @@ class C04(Spec):
                 if screen_kind != "default":
                     yaml_text += SCREENS[screen_kind][0]
             frames = max(frames, 7)
+        if directed is not None:   # plain settings: the routing gain under test is the only thing that scales the signal
+            gain_db, conversion, fail = 0.0, None, False
+            frames = max(frames, 7)
         in_path = os.path.join(tmp, "in%d.wav" % idx)
         out_path = os.path.join(tmp, "out%d.wav" % idx)
         write_input(in_path, adm, n_tracks, frames, bitdepth, rate, rng, full_scale=full_scale)
         params = dict(layout=lname, speakers=sk, gain_db=gain_db, fail=fail, conversion=conversion, fix=fix,
                       programme=prog_id, comp=comp_ids, bitdepth=bitdepth, rate=rate, frames=frames,
-                      items=info["items"], exact_overload=exact_overload)
+                      items=info["items"], exact_overload=exact_overload, speakers_file=yaml_text)
         ctx.count("layout:" + lname); ctx.count("speakers:" + sk); ctx.count("bitdepth:%d" % bitdepth)
         ctx.count("frames:%d" % frames); ctx.count("conversion:%s" % conversion)
         for it in info["items"]:
@@ -311,17 +387,24 @@ class C04(Spec):
                                   output_gain_db=gain_db, fail_on_overload=fail, enable_block_duration_fix=fix,
                                   programme_id=prog_id, complementary_object_ids=comp_ids, conversion_mode=conversion)
         failed, err = False, None
+        calls = []
+        from ear.cmdline import render_file as _rf
+        import contextlib as _cl
+        saved_renderer = _rf.Renderer
         with warnings.catch_warnings():
             warnings.simplefilter("ignore")
             try:
-                drv.run(in_path, out_path)
+                _rf.Renderer = LY.recording_renderer(calls)   # records the render / get_tail call sequence
+                with _cl.redirect_stderr(io.StringIO()):     # check_positions / check_upmix_matrix messages
+                    drv.run(in_path, out_path)
             except Exception as e:  # noqa
                 if str(e) == "error: output overloaded":
                     failed = True
                 else:
                     err = e
-            # ---- reference: in-memory rendering + own routing
-            lay_real = reference_layout(lay, screen_kind)
+            finally:
+                _rf.Renderer = saved_renderer
+            # ---- reference: in-memory rendering + own routing (lay_real: reference layout, built without the code under test)
             try:
                 blocks, rate2, bd2, n_in = in_memory(in_path, lay_real, prog_id, comp_ids, conversion, fix)
             except Exception as e:  # reference itself rejects the input: outside the quantifier
@@ -339,6 +422,7 @@ class C04(Spec):
         with openBw64(out_path) as f:
             got = dict(rate=f.sampleRate, bitdepth=f.bitdepth, frames=len(f), channels=f.channels)
             out = f.read(len(f)) if len(f) else np.zeros((0, f.channels))
+        self._calls.append((params, frames, list(calls)))
         M = 2 ** (bitdepth - 1) - 1
         got_codes = np.rint(out * M).astype(np.int64)
         g = 10.0 ** (gain_db / 20.0)
@@ -412,15 +496,39 @@ class C04(Spec):
             else:
                 ctx.validated()
         lines.clear(); metas.clear()
+        # the render / get_tail call sequence of render_input_file vs the model's block loop (C18's iteration spec)
+        calls, self._calls = self._calls, []
+        outs = driver.run(["@parts %d %d" % (OfflineBlocksize(), frames) for _, frames, _ in calls])
+        for line, (params, frames, log) in zip(outs, calls):
+            real = " ".join([str(len(log) - 1)] + [str(x) for x in log[:-1]]) if log and log[-1] == "tail" else "no-tail:%r" % (log[-3:],)
+            if line != real:
+                ctx.disagree("render_input_file call sequence vs Earverif.FileRenderLayout.fileParts/renderCalls", params, line[:200], real[:200])
+            else:
+                ctx.validated()
+                ctx.count("block-calls:%d" % (len(log) - 1))
+
+    _calls = []
 
     def correspond(self, ctx):
         driver = Driver("c04driver", "Earverif.Driver.C04")
         tmp = tempfile.mkdtemp(prefix="c04_")
+        self._calls = []
         try:
+            # ---- the speakers-file front end, the lookup glue, check_upmix_matrix / inside_angle_range (no rendering)
+            LY.correspond_directed(ctx, driver)
+            LY.correspond_speakers_files(ctx, driver, 90 if ctx.quick else 600, 110 if ctx.quick else 900)
+            LY.correspond_checks(ctx, driver, 60 if ctx.quick else 400)
+            LY.correspond_lookup(ctx, driver, 50 if ctx.quick else 400)
+            # ---- file-to-file runs
             lines, metas = [], []
             n = 7 if ctx.quick else 150
             for i in range(n):
                 self._one(ctx, tmp, i, lines, metas)
+            # deterministic routing-gain probes: the loudspeaker that carries the signal is muted (gain exactly 0),
+            # inverted, or amplified by the speakers file
+            for i, d in enumerate(["gain0", "neg", "big", "gain0-int"] if ctx.quick
+                                  else ["gain0", "neg", "big", "gain0-int", "half"] * 3):
+                self._one(ctx, tmp, 500 + i, lines, metas, directed=d)
             for i, mode in enumerate(["at", "above-neg", "at-neg", "above-pos", "above"] if ctx.quick
                                      else ["at", "above", "above-neg", "at-neg", "above-pos"] * 4):
                 self._one(ctx, tmp, 1000 + i, lines, metas, exact_overload=mode)
@@ -436,6 +544,7 @@ class C04(Spec):
     def search(self, ctx, deep):
         if not deep or not ctx.quick:
             return  # thorough already ran the large budget in correspond
+        LY.search_speakers_files(ctx, 400)
         tmp = tempfile.mkdtemp(prefix="c04s_")
         try:
             lines, metas = [], []
@@ -448,18 +557,41 @@ class C04(Spec):
 SPEC = C04()
 
 REGISTRY = dict(
-    text="PARTIAL: Lean theorems over the glue model of OfflineRenderDriver (Earverif.FileRender.run_frame_count, "
-    "run_channel_count, upmix_column, dot_single, overload_iff, run_failed_iff, quantise_within_step, quantise_clips) "
-    "prove for all block sequences, layouts and speakers lists: frames out = frames the renderer returned, one channel "
-    "per loudspeaker or per output channel of the speakers file, routing/scaling by the speakers file, overload flag "
-    "<=> some output sample exceeds full scale (any blocking, incl. empty blocks), failure <=> flag and fail_on_overload, "
-    "written code within one step of the exact sample and clipped outside [-1,1]. Composed with the renderer model of "
-    "C02/C03 (file_frames_eq_input): for every accepted session and every blocking of the input the written file has exactly "
-    "as many frames as the input. Otherwise the renderer's blocks are a parameter (C02/C03); float rounding is C16's. Tied to the code by running OfflineRenderDriver.run on generated BW64/ADM files "
-    "and comparing the output file with the model fed the in-memory rendering; the full contract (same rate/bit depth/"
-    "frame count, samples within one step, overload failure) is additionally evaluated directly on every run.",
-    note="Trusted: Lean kernel, hand model of the glue + correspondence harness; argparse/YAML/filesystem not modelled; "
-    "in-memory reference uses the library's own Renderer/select_rendering_items.",
-    technique="Lean 4 proofs (induction over blocks/frames, rational arithmetic) about a glue model + differential file-to-file correspondence",
+    text="PARTIAL: Lean theorems over two hand models. (1) Glue of OfflineRenderDriver.run (Earverif.FileRender.run_frame_count, "
+    "run_channel_count, upmix_column, dot_single, overload_iff, run_failed_iff, quantise_within_step, quantise_clips, "
+    "run_blocking_invariant) prove for all block sequences, layouts and speakers lists: frames out = frames the renderer "
+    "returned, one channel per loudspeaker or per output channel of the speakers file, routing/scaling by the speakers file, "
+    "overload flag <=> some output sample exceeds full scale (any blocking, incl. empty blocks), failure <=> flag and "
+    "fail_on_overload, written code within one step of the exact sample and clipped outside [-1,1], result independent of "
+    "how the renderer output is cut into blocks. (2) Speakers-file front end on a parsed YAML value "
+    "(Earverif.FileRenderLayout.*): speakers_file_channels (with_speakers succeeds => every channel entry is an integer, "
+    "rows = 1 + max channel, every listed channel below that, one column per layout channel), speakers_file_routing (each "
+    "layout channel goes to the row of the FIRST entry listing its name, Python negative indices included, scaled by its "
+    "gain, takes its position; unlisted => silent, not rejected), speakers_file_column_nnz / upmix_check_iff / "
+    "speakers_file_check_clean_iff (check_upmix_matrix is silent exactly for matrices with one non-zero per column and at "
+    "most one per row; for a speakers file: every channel listed with non-zero gain and no shared output), "
+    "parse_speaker_spec / parse_polar_spec (names and channel required - no default channel index -, names string or list, "
+    "gain_linear default 1, unknown keys ignored, position keys exactly az/el/r within range), screen_null_vs_absent / "
+    "screen_list_form / with_real_layout_screen / load_output_layout_screen (absent => default screen, null => no screen, "
+    "the BS.2051 layout's own screen is never kept), inside_angle_range_iff / check_position_iff (range test = some "
+    "whole-turn representative inside [lo, hi]), with_speakers_eq_upmix / eye_identity / load_output_layout_spec (the "
+    "parsed file yields exactly FileRender.upmix / nChannels, identity without a speakers list), programme_lookup_total / "
+    "lookupAll_ok / get_rendering_items_spec / get_rendering_items_lookup_error / apply_conversion_spec (an id that does "
+    "not exist is KeyError, a wrong-type element ValueError, never a default; lookups, select, preprocess, convert in that "
+    "order). (3) Compositions: file_frames_eq_input (C02) and file_render_blocks_frames: reading with "
+    "iter_sample_blocks(blocksize >= 1) (C18 specIter via fileParts_spec: blocks tile the file), one render per block + one "
+    "get_tail (renderCalls_length), glue => exactly as many frames as the input, nChannels samples each, for every accepted "
+    "session. Tied to the code on every run: OfflineRenderDriver.run on generated files vs model and an independent "
+    "reference (incl. deterministic gain 0 / negative / > 1 probes and the recorded render/get_tail call sequence); "
+    "load_real_layout / load_speakers / with_real_layout / check_* / load_output_layout / lookup_adm_element / "
+    "get_rendering_items / check_upmix_matrix / inside_angle_range vs the model on valid, directed and malformed inputs; the "
+    "full contract is additionally evaluated directly. Remaining outside: YAML text parsing (PyYAML), argparse, the "
+    "filesystem, select/preprocess/convert themselves (parameters here; C06/C07/C19), float rounding (C16), Python "
+    "dynamic-typing corners answered `unsupported` (numeric strings, bool/float channels, null gain).",
+    note="Trusted: Lean kernel, the two hand models + correspondence harness; PyYAML/argparse/filesystem not modelled; "
+    "in-memory reference uses the library's own Renderer/select_rendering_items; the layout reference (harness/c04_layout.py "
+    "reference_output_layout) is written from the documentation and does not call the code under test.",
+    technique="Lean 4 proofs (induction over blocks/frames/entries, case analysis of the parser, rational arithmetic) about "
+    "glue models + differential correspondence (file-to-file and parsed-YAML level) + independent-reference direct predicate",
     design_ref="DESIGN.md section 4, C04",
 )
